@@ -8,6 +8,7 @@ import re
 import struct
 from fractions import Fraction
 from vlib import core
+from checks import _tmpl_streams as T
 
 META = {
     "property_id": "C04",
@@ -847,6 +848,8 @@ def run(ctx):
     gen.stream_c()
     gen.stream_d()
     gen.stream_e()
+    nz = T.c04_zero_divisors(gen)        # stream Z: zero divisors of every origin incl. Real -0.0 (round c)
+    ctx.notes.append("stream Z: %d expressions dividing by a zero (literal / variable / computed, +0 and -0)" % nz)
     exprs = gen.exprs
     ctx.notes.append("corpus lines: %d; generated expressions: %d; candidates rejected by the 64-bit-safe filter: %d" % (ncorpus, len(exprs), gen.rejected))
 
@@ -935,6 +938,7 @@ def run(ctx):
     for name, n in sorted(gap_n.items()):
         ctx.count("known-model-gap:" + name, n, n)
 
+    T.c04_zero_divisor_oracle(ctx, exprs, meta, lines, impl, model, units_of, split_model)
     # ---- S3: the exact reference evaluator on the generated structure -------------------------------
     p_out = {}
     for i, (k, mode) in enumerate(meta):
@@ -997,5 +1001,5 @@ def run(ctx):
 
 
 FINISH = dict(level="proof",
-              rule="every ordered pair and triple of the 16 operators and every 4-tuple over 10 of them on fixed small literals; every operator x ordered pair of 14 operand kinds; every variable kind under == / != against numbers, text and every other kind, alone and parenthesised; random trees (2-8 operands, nesting <= 3, |v| <= 1000, dyadic fractions, exponents 0..6) with injected zero divisors and fractional powers; malformed text incl. every truncation of three expressions; each in {math:}, <if case> and ParseExpressions+Evaluate; non-trivial = distinct input line",
+              rule="every ordered pair and triple of the 16 operators and every 4-tuple over 10 of them on fixed small literals; every operator x ordered pair of 14 operand kinds; every variable kind under == / != against numbers, text and every other kind, alone and parenthesised; random trees (2-8 operands, nesting <= 3, |v| <= 1000, dyadic fractions, exponents 0..6) with injected zero divisors and fractional powers; stream Z: zero divisors of every origin (literals 0 / -0 / -0.0, variables, strings, computed) under / and % in 12 contexts with the no-value oracle on all three entry points; malformed text incl. every truncation of three expressions; each in {math:}, <if case> and ParseExpressions+Evaluate; non-trivial = distinct input line",
               checker_cmd="cd lean && lake build Qentem.Props.C04 && lake env lean <#print axioms of the listed theorems>; python3 check.py C04")
